@@ -197,22 +197,33 @@ def b_range(ex, *a):
     return range(*a)
 
 
-def b_min(ex, *a):
-    if len(a) == 1:
-        a = ex.iterate(a[0])
-    r = a[0]
-    for x in a[1:]:
-        r = ite(x < r, x, r) if isinstance(x, Sym) or isinstance(r, Sym) else min(r, x)
+def _extreme(ex, a, kw, less):
+    key = kw.get('key')
+    items = list(ex.iterate(a[0])) if len(a) == 1 else list(a)
+    if not items:
+        if 'default' in kw:
+            return kw['default']
+        raise PyRaise(make_exc('ValueError', 'min()/max() arg is an empty sequence'))
+    keys = [ex.call(key, [x], {}, None) for x in items] if key is not None else items
+    r, rk = items[0], keys[0]
+    for x, k in zip(items[1:], keys[1:]):
+        if isinstance(k, Sym) or isinstance(rk, Sym):
+            c = less(k, rk)
+            if key is None:
+                r = rk = ite(c, k, rk)
+            elif ex.truth(c):
+                r, rk = x, k
+        elif less(k, rk):
+            r, rk = x, k
     return r
 
 
-def b_max(ex, *a):
-    if len(a) == 1:
-        a = ex.iterate(a[0])
-    r = a[0]
-    for x in a[1:]:
-        r = ite(x > r, x, r) if isinstance(x, Sym) or isinstance(r, Sym) else max(r, x)
-    return r
+def b_min(ex, *a, **kw):
+    return _extreme(ex, a, kw, lambda x, y: x < y)
+
+
+def b_max(ex, *a, **kw):
+    return _extreme(ex, a, kw, lambda x, y: x > y)
 
 
 def b_sum(ex, it, start=0):
@@ -462,6 +473,17 @@ def method_of(ex, obj, name):
         f = STR_METHODS.get(name)
         if f:
             return BoundBuiltin(f'str.{name}', f, obj)
+        if isinstance(obj, str) and name in _NATIVE_STR_METHODS:
+            # a concrete string and a side-effect free method: CPython computes it when the arguments are concrete too
+            def native(ex, me, *a, **k):
+                a = [ex.concretize(x) for x in a]
+                if any(isinstance(x, (Sym, SStr)) for x in a) or any(isinstance(x, (Sym, SStr)) for x in k.values()):
+                    raise Unsupported(f'str.{name} with symbolic arguments')
+                try:
+                    return getattr(me, name)(*a, **k)
+                except (ValueError, TypeError, IndexError, KeyError) as e:
+                    raise PyRaise(make_exc(type(e).__name__, str(e)))
+            return BoundBuiltin(f'str.{name}', native, obj)
     if isinstance(obj, list):
         f = LIST_METHODS.get(name)
         if f:
@@ -545,7 +567,25 @@ def m_bytes_startswith(ex, b, p):
     return vand(*[b.items[i] == p.items[i] for i in range(len(p))])
 
 
-BYTES_METHODS = {'hex': m_bytes_hex, 'find': m_bytes_find, 'extend': m_bytes_extend, 'decode': m_bytes_decode,
+def _pad(ex, b, width, fill, left):
+    b = SBytes.of(b)
+    width = ex.concretize(width)
+    fill = ex.concretize(fill)
+    if isinstance(width, Sym) or not isinstance(fill, (bytes, bytearray)) or len(fill) != 1:
+        raise Unsupported('bytes.rjust/ljust with symbolic width or a fill that is not one byte')
+    pad = [fill[0]] * max(0, width - len(b))
+    return SBytes(pad + list(b.items) if left else list(b.items) + pad)
+
+
+def m_bytes_rjust(ex, b, width, fill=b' '):
+    return _pad(ex, b, width, fill, True)
+
+
+def m_bytes_ljust(ex, b, width, fill=b' '):
+    return _pad(ex, b, width, fill, False)
+
+
+BYTES_METHODS = {'rjust': m_bytes_rjust, 'ljust': m_bytes_ljust, 'hex': m_bytes_hex, 'find': m_bytes_find, 'extend': m_bytes_extend, 'decode': m_bytes_decode,
                  'startswith': m_bytes_startswith}
 
 
@@ -665,9 +705,25 @@ def m_str_join(ex, sep, it):
     return out
 
 
+_NATIVE_STR_METHODS = ('isdigit', 'isalpha', 'isalnum', 'isnumeric', 'isdecimal', 'isspace', 'islower', 'isupper', 'endswith', 'find', 'rfind', 'index', 'count',
+                       'replace', 'title', 'capitalize', 'lstrip', 'rstrip', 'zfill', 'ljust', 'rjust', 'center', 'partition', 'rpartition', 'rsplit', 'splitlines',
+                       'removeprefix', 'removesuffix', 'casefold', 'swapcase', 'format', 'isidentifier', 'isascii')
+_PREFIX = {}
+
+
+def _prefix_pred(p):
+    if p not in _PREFIX:
+        from .sstr import Atom as _A
+        _PREFIX[p] = z3.Function(f'str.startswith[{p}]', _A.S, z3.BoolSort())
+    return _PREFIX[p]
+
+
 def m_str_startswith(ex, s, p):
     if isinstance(s, str):
         return s.startswith(p)
+    if isinstance(p, str) and len(s.parts) == 1 and isinstance(s.parts[0], Atom):
+        # an unknown text: whether it starts with p is an unknown (but consistent) fact about it
+        return mk_bool(_prefix_pred(p)(s.parts[0].z3()))
     if s.parts and isinstance(s.parts[0], str) and len(s.parts[0]) >= len(p):
         return s.parts[0].startswith(p)
     raise Unsupported(f'startswith on {s!r}')
